@@ -1005,6 +1005,43 @@ def _truncate_once(ctx, case, ttns, method, prm):
             ctx.hyp_validated += 1
             if q:
                 probs.append(f"live call on spectrum {s.tolist()}: " + "; ".join(q[:2]))
+    if not probs and method == "recursive" and calls and len(order) >= 2:
+        # "the descending spectrum" a tree truncation acts on is the spectrum of the STATE across the bond.  The first
+        # call of recursive_truncation decomposes the root tensor of the state canonicalised at the root, so its spectrum
+        # must be the Schmidt spectrum of the state before the call across one of the root's bonds (singular values are
+        # perfectly conditioned: absolute error ~ eps * norm).  A routine that trusts a centre recorded elsewhere
+        # decomposes an isometry instead (round-4 seed C10-R4A: all other clauses stay satisfied by the wrong spectra).
+        s_first = np.sort(np.asarray(calls[0][0], dtype=float))[::-1]
+        dims0 = []
+        for x in order:                  # all open legs of a node together (a node may have none or several)
+            nd = before.nodes[x]
+            dims0.append(int(np.prod([int(d) for d in nd.shape[nd.nvirt_legs():]])) if nd.nopen_legs() > 0 else 1)
+        T0 = np.asarray(v0).reshape(dims0)
+        root = before.root_id
+        nrm0 = float(np.linalg.norm(v0))
+        matches = []
+        for c in before.nodes[root].children:
+            sub, stack = [c], [c]
+            while stack:
+                x = stack.pop()
+                for y in before.nodes[x].children:
+                    sub.append(y)
+                    stack.append(y)
+            ax = [order.index(x) for x in sub]
+            rest = [i for i in range(len(order)) if i not in ax]
+            M = np.transpose(T0, ax + rest).reshape(int(np.prod([dims0[i] for i in ax])), -1)
+            sv = np.linalg.svd(M, compute_uv=False)
+            k = max(len(sv), len(s_first))
+            a = np.zeros(k)
+            b = np.zeros(k)
+            a[:len(sv)] = sv
+            b[:len(s_first)] = s_first
+            matches.append(float(np.max(np.abs(a - b))))
+        ctx.tally("first_spectrum_checked", True)
+        if matches and min(matches) > 1e-8 * max(nrm0, 1e-300):
+            probs.append(f"the first truncation acts on the spectrum {s_first[:4].tolist()}, which is not the singular "
+                         f"value spectrum of the state across any bond at the root (closest deviation {min(matches):.3e}, "
+                         f"norm {nrm0:.3e})")
     if not probs:
         D = prm["D"]
         for nid, node in ttns.nodes.items():
@@ -1162,7 +1199,10 @@ def _prepare_value(ctx, case):
             if m0.shape != v0.shape or np.any(m0 != v0.real) or np.any(v0.imag != 0):
                 ctx.corr_fail(case, f"value: model netValue of the integer state {m0[:6]} != dense state {v0[:6]}")
                 return
-            nrm = max(float(np.linalg.norm(m0)), 1e-300)
+            # round-off of the QR / SVD passes is relative to the size of the TENSORS, not of the contracted vector:
+            # integer tensors may contract to exactly zero (false alarm at ten-fold budget: |after| = 3e-15, state 0)
+            tscale = float(np.prod([max(float(np.linalg.norm(ttns.tensors[x])), 1.0) for x in ttns.nodes]))
+            nrm = max(float(np.linalg.norm(m0)), tscale, 1e-300)
             if v1.shape != m0.shape or float(np.linalg.norm(v1 - m0)) > 1e-10 * nrm:
                 ctx.oracle_fail(case, f"value/rt: recursive_truncation with max_bond_dim=inf and tolerances -inf (nothing "
                                       f"discarded) changed the state: |after - model value of the original network| = "
